@@ -62,6 +62,8 @@ type Client struct {
 	SlowRead       int // >0: take at most this many bytes per read event
 	OnReply        func(c *Client, s *Sent)
 	Paused         bool
+	cur            *Sent
+	LastSendAt     time.Time
 	readEv         string
 	MaxOutstanding int // 0 = unlimited pipelining
 	// Gate, when set, must allow request idx to be sent (global sequencing); Kick re-evaluates it.
@@ -136,7 +138,7 @@ func (c *Client) pump() {
 		c.chunks = append(c.chunks, enc[prev:])
 		c.next++
 		s := &Sent{Idx: c.next - 1, DoneStep: -1}
-		c.Sent = append(c.Sent, s)
+		c.cur = s
 		label := fmt.Sprintf("cl:%s:send#%06d", c.Name, c.seqNext())
 		if r.Gap > 0 {
 			c.rt.AddEventAt(time.Now().Add(time.Duration(r.Gap)*time.Millisecond), label, func() { c.sendChunk(s, true) })
@@ -145,7 +147,7 @@ func (c *Client) pump() {
 		}
 		return
 	}
-	s := c.Sent[len(c.Sent)-1]
+	s := c.cur
 	c.rt.AddEvent(fmt.Sprintf("cl:%s:send#%06d", c.Name, c.seqNext()), func() { c.sendChunk(s, false) })
 }
 
@@ -156,8 +158,11 @@ func (c *Client) sendChunk(s *Sent, first bool) {
 		return
 	}
 	if first {
+		// the request counts as issued from the moment its first byte is handed to the network
 		s.InvokeStep = c.rt.Step
 		s.InvokeTime = time.Now()
+		c.Sent = append(c.Sent, s)
+		c.LastSendAt = s.InvokeTime
 	}
 	ch := c.chunks[0]
 	c.chunks = c.chunks[1:]
